@@ -6,6 +6,8 @@ UNITS = [
     {'name': 'bitvec.iter', 'backend': 'verus', 'tier': 'quick'},
     {'name': 'rank9', 'backend': 'verus', 'tier': 'quick'},
     {'name': 'shard_edge', 'backend': 'verus', 'tier': 'quick'},
+    {'name': 'ef.builder', 'backend': 'verus', 'tier': 'quick'},
+    {'name': 'ef.guards', 'backend': 'verus', 'tier': 'quick'},
     {'name': 'lenders.rewind', 'backend': 'verus', 'tier': 'quick', 'c12': False},
     {'name': 'bfv.core@u64', 'backend': 'verus', 'tier': 'quick'},
     {'name': 'bfv.core@usize', 'backend': 'verus', 'tier': 'quick'},
